@@ -42,6 +42,7 @@ futures = "0.3"
 multiaddr = "0.18"
 bytes = "1"
 tokio-util = { version = "0.7", features = ["codec", "compat"] }
+async-trait = "0.1"
 
 [profile.dev]
 opt-level = 1
@@ -81,7 +82,7 @@ mfail = [i for i, x in enumerate(mok) if x != "1"]
 kinds = {}
 for x in c:
     k = x.split()[0]; kinds[k] = kinds.get(k, 0) + 1
-names = {"50": "WebRTC substream", "60": "QUIC end-to-end"}
+names = {"50": "WebRTC writer", "51": "WebRTC reader", "60": "QUIC Identity", "61": "QUIC varint", "62": "QUIC varint(max)"}
 accepted = sum(1 for x in t if len(x.split()) > 8)  # non-trivial traces
 os.makedirs(os.path.join(v, "replays"), exist_ok=True)
 how = "# replay: %s --replay <this file> --out-cases /dev/stdout --out-trace /dev/stderr\n" % hbin
